@@ -153,6 +153,8 @@ func runFunctions(w *World, specs *Specs, contracts map[string]*Contract, keys [
 		fn := w.Funcs[key]
 		if strings.HasPrefix(key, "grammar:") {
 			grammarOutcome(w, fo)
+		} else if strings.HasPrefix(key, "maprange:") {
+			maprangeOutcome(w, fo)
 		} else if strings.HasPrefix(key, "globals:") {
 			globalsOutcome(w, fo)
 		} else if strings.HasPrefix(key, "footprint:") {
@@ -883,4 +885,87 @@ func sortedSet(m map[string]bool) []string {
 	}
 	sort.Strings(out)
 	return out
+}
+
+type maprangeSpec struct {
+	Packages []string          `json:"packages"`
+	Loops    map[string]struct {
+		Count int    `json:"count"` // number of such loops in the function
+		Why   string `json:"why"`   // why their outcome does not depend on the iteration order
+	} `json:"loops"` // key: "<function key> <map type>"
+	Why      string            `json:"why"`
+}
+
+// maprangeOutcome: Go iterates over maps in an unspecified order. Every `range` over a map in the listed packages
+// must be on the reviewed list (with the reason its outcome is independent of the order); a new or moved loop fails.
+func maprangeOutcome(w *World, fo *funcOutcome) {
+	name := strings.TrimPrefix(fo.Key, "maprange:")
+	fo.VC = &VCResult{Key: fo.Key}
+	b, err := os.ReadFile(filepath.Join(verifDir(), "spec", "footprints", "maprange_"+name+".json"))
+	if err != nil {
+		fo.VC.Err = err
+		return
+	}
+	var ms maprangeSpec
+	if err := json.Unmarshal(b, &ms); err != nil {
+		fo.VC.Err = err
+		return
+	}
+	fo.Res = map[int]OblResult{}
+	found := map[string]int{}
+	var scan func(fn *ssa.Function)
+	scan = func(fn *ssa.Function) {
+		for _, blk := range fn.Blocks {
+			for _, ins := range blk.Instrs {
+				if r, ok := ins.(*ssa.Range); ok {
+					if mt, isMap := types.Unalias(r.X.Type()).Underlying().(*types.Map); isMap {
+						found[funcKey(fn)+" "+types.TypeString(mt, func(p *types.Package) string { return p.Name() })]++
+					}
+				}
+			}
+		}
+		for _, a := range fn.AnonFuncs {
+			scan(a)
+		}
+	}
+	n := 0
+	for _, fn := range w.Funcs {
+		if fn.Parent() != nil || fn.Pkg == nil {
+			continue
+		}
+		for _, rp := range ms.Packages {
+			if relPkg(fn.Pkg.Pkg.Path()) == rp {
+				n++
+				scan(fn)
+			}
+		}
+	}
+	addObl := func(name, descr string, ok bool) {
+		i := len(fo.VC.Obls)
+		fo.VC.Obls = append(fo.VC.Obls, &Obl{Name: name, Kind: "table", Offset: i, Func: fo.Key, Descr: descr})
+		st := "unsat"
+		if !ok {
+			st = "sat"
+		}
+		fo.Res[i] = OblResult{st, "ssa-scan", 0}
+	}
+	var unlisted, stale []string
+	for k, n := range found {
+		if l, ok := ms.Loops[k]; !ok {
+			unlisted = append(unlisted, k)
+		} else if l.Count != n {
+			unlisted = append(unlisted, fmt.Sprintf("%s (%d loops found, %d reviewed)", k, n, l.Count))
+		}
+	}
+	for k := range ms.Loops {
+		if found[k] == 0 {
+			stale = append(stale, k)
+		}
+	}
+	sort.Strings(unlisted)
+	sort.Strings(stale)
+	addObl("no-unreviewed-map-iteration", fmt.Sprintf("every range over a map in %v is on the reviewed list; not listed: %v (%s)", ms.Packages, unlisted, ms.Why), len(unlisted) == 0)
+	addObl("list-current", fmt.Sprintf("every listed loop still exists: stale %v", stale), len(stale) == 0)
+	addObl("scan-not-empty", fmt.Sprintf("%d functions scanned", n), n > 0)
+	fo.VC.Trusted = []string{fmt.Sprintf("order-independence of the %d reviewed map iterations in %v is argued per loop in spec/footprints/maprange_%s.json, not proved", len(ms.Loops), ms.Packages, name)}
 }
